@@ -1,5 +1,6 @@
 import Glas.Lemmas.Text
 import Glas.Lemmas.TextCR
+import Glas.Lemmas.TextTotal
 import Glas.Model.TextSpec
 /-!
 # C13 — the server's copy of a document tracks the editor's through any edits
@@ -29,8 +30,8 @@ theorem pos_tracks (c : List Char) (k : Nat) (hwf : wfCRLF c = true) (hv : valid
 theorem edit_tracks (c : List Char) (j k : Nat) (ins : List Char) (hwf : wfCRLF c = true)
     (hjk : j ≤ k) (hj : validIdx c j) (hk : validIdx c k) (hlen : u8sum (stripCR c) < U32) :
     serverApply (stripCR c) c (.range j k ins) = .ok (stripCR (clientApply c (.range j k ins))) := by
-  have hpj := pos_tracks c j hwf hj hlen
-  have hpk := pos_tracks c k hwf hk hlen
+  have hpj := fromPos_tracks c j hwf hj hlen
+  have hpk := fromPos_tracks c k hwf hk hlen
   have htj : c.take j = (c.take k).take j := by rw [List.take_take, Nat.min_eq_left hjk]
   have hle : u8sum (stripCR (c.take j)) ≤ u8sum (stripCR (c.take k)) := by
     have h := (stripCR_take_drop (c.take k) j).1
@@ -43,10 +44,15 @@ theorem edit_tracks (c : List Char) (j k : Nat) (ins : List Char) (hwf : wfCRLF 
     omega
   have hsj := splitAtByte_take (stripCR c) (stripCR (c.take j)).length
   have hsk := splitAtByte_take (stripCR c) (stripCR (c.take k)).length
+  have hbj := isBoundary_take (stripCR c) (stripCR (c.take j)).length
+  have hbk := isBoundary_take (stripCR c) (stripCR (c.take k)).length
   rw [(stripCR_take_drop c j).1, (stripCR_take_drop c j).2] at hsj
   rw [(stripCR_take_drop c k).1, (stripCR_take_drop c k).2] at hsk
+  rw [(stripCR_take_drop c j).1] at hbj
+  rw [(stripCR_take_drop c k).1] at hbk
   simp only [serverApply, applyChange, LineMap.fromRange, hpj, hpk, if_pos hle, changeFileContent,
-    if_neg hkle, hsj, hsk, clientApply]
+    if_neg hkle, hbj, hbk, Bool.and_self, Bool.not_true, Bool.false_eq_true, if_false, hsj, hsk,
+    clientApply]
   simp only [stripCR_append, stripCR_idem]
 
 /-- any history of valid changes (ranged and full-text mixed; the line map is rebuilt after each,
